@@ -55,6 +55,11 @@ INDEX = dict((f, dict((okey(v), i + 1) for i, v in enumerate(vals))) for f, vals
 def make_schema(variant=0):
     from whoosh import fields, analysis, columns
     ana = analysis.RegexTokenizer(r"\S+") | analysis.StopFilter(stoplist=[world.GAPWORD], minsize=1, renumber=False)
+    if variant % 2 == 0:
+        # an analyzer that depends on the mode it is called in: everything that is written to the index
+        # (postings and term vectors alike) must be analysed in mode "index", where this filter changes nothing
+        ana = ana | analysis.MultiFilter(**{"index": analysis.PassFilter(), "": analysis.ReverseTextFilter(),
+                                            "query": analysis.ReverseTextFilter()})
     schema = fields.Schema(
         key=fields.ID(stored=True, unique=True),
         body=fields.TEXT(analyzer=ana, phrase=True, chars=(variant % 2 == 1), vector=True),
